@@ -269,6 +269,14 @@ class C16(Check):
             counters["reproducibility_pairs"] += 1
             if reseeded["all"] != first["all"]:
                 bad("reproducibility:reseeded-generator-differs", dict(mode=case["mode"]))
+            # ... also when the value given is the one it already has: reseeding a used generator restarts its stream (round 7)
+            used = BoxRandoms(ra0, ra1, dec0, dec1, weights=w_arg, redshifts=z_arg, seed=seed)
+            used(int(rng.integers(1, 40)))
+            used.reseed(seed)
+            again = create("s", used, 1)
+            counters["reproducibility_pairs"] += 1
+            if again["all"] != first["all"]:
+                bad("reproducibility:reseed-with-own-seed-keeps-stream-position", dict(mode=case["mode"]))
             if case["mode"] == "generate":
                 # the points are the generator's seeded stream whichever way the patches are defined
                 try:
